@@ -187,6 +187,20 @@ pub trait World: Sync + Send + 'static {
     fn stack_mib(&self) -> usize {
         16
     }
+    /// stack size for the thread that executes this case
+    fn case_stack_mib(&self, _case: &Self::Case) -> usize {
+        self.stack_mib()
+    }
+    /// generation that may depend on the run index (for enumerated prefixes of the case space)
+    fn generate_indexed(&self, _index: u64, seed: u64, tier: Tier) -> Self::Case {
+        self.generate(seed, tier)
+    }
+    /// cases may kill or hang the process executing them: workers report the index of the case
+    /// they are about to start, deaths are attributed to it, and a watchdog re-examines slow
+    /// cases in isolation
+    fn crash_isolated(&self) -> bool {
+        false
+    }
 }
 
 pub struct RunOutcome {
@@ -203,7 +217,7 @@ pub fn run_case<W: World>(world: &Arc<W>, case: &W::Case, known: &Arc<Vec<KnownF
     let prop = world.property();
     let shared: Arc<Mutex<Obs>> = Arc::new(Mutex::new(Obs::new(prop, k, keep_log)));
     let shared2 = shared.clone();
-    let stack = std::env::var("VERIF_STACK_MIB").ok().and_then(|s| s.parse().ok()).unwrap_or_else(|| world.stack_mib());
+    let stack = std::env::var("VERIF_STACK_MIB").ok().and_then(|s| s.parse().ok()).unwrap_or_else(|| world.case_stack_mib(case));
     let r = on_fresh_thread(hs, stack, move || {
         let mut obs = shared2.lock().unwrap_or_else(|e| e.into_inner());
         w.execute(&c, &mut obs)
@@ -259,7 +273,15 @@ pub struct WorkerReport {
 pub fn worker_main<W: World>(world: &Arc<W>, verif_seed: u64, tier: Tier, runs: u64, k: u64, n: u64, out: &str, stop_file: &str, known: &Arc<Vec<KnownFinding>>) -> i32 {
     let mut local = Obs::new(world.property(), known.clone(), false);
     let mut rep = WorkerReport::default();
+    // a replacement worker (after a watchdog kill) resumes behind the case that was examined in isolation
+    let start_from: u64 = std::env::var("VERIF_WORKER_START").ok().and_then(|s| s.parse().ok()).unwrap_or(0);
+    let isolated = world.crash_isolated();
+    let progress = format!("{out}.progress");
+    let partial = format!("{out}.partial");
     let mut i = k;
+    while i < start_from {
+        i += n;
+    }
     let mut since_poll = 0;
     while i < runs {
         if since_poll >= 32 {
@@ -274,7 +296,18 @@ pub fn worker_main<W: World>(world: &Arc<W>, verif_seed: u64, tier: Tier, runs: 
         }
         since_poll += 1;
         let seed = case_seed(verif_seed, world.name(), i);
-        let case = world.generate(seed, tier);
+        let case = world.generate_indexed(i, seed, tier);
+        if isolated {
+            // report the case about to start, so that a death or a stall is attributed to it
+            let _ = std::fs::write(&progress, format!("{i}"));
+            if rep.digests.len() % 2000 == 0 {
+                // what has been done so far survives a later death of this process
+                rep.counters = local.counters.clone();
+                rep.sets = local.sets.iter().map(|(k, v)| (k.clone(), v.iter().copied().collect())).collect();
+                rep.known_hits = local.known_hits.iter().cloned().collect();
+                let _ = std::fs::write(&partial, serde_json::to_string(&rep).unwrap_or_default());
+            }
+        }
         let out = run_case(world, &case, known, false);
         rep.digests.push((i, out.obs.digest));
         local.merge(&out.obs);
@@ -302,6 +335,67 @@ pub fn worker_main<W: World>(world: &Arc<W>, verif_seed: u64, tier: Tier, runs: 
 
 static BATCH_NO: AtomicU64 = AtomicU64::new(0);
 
+pub enum Isolated {
+    Finished(Option<Violation>),
+    Died(String),
+    TimedOut,
+}
+
+/// Execute one case in a child process of its own (crash isolation), with a wall-clock limit.
+/// The limit can only turn "seems stuck" into the verdict `hang` after the case has been
+/// examined alone, so machine load cannot raise an alarm.
+pub fn run_case_isolated<W: World>(world: &Arc<W>, case: &W::Case, limit_s: u64) -> Isolated {
+    let exe = std::env::current_exe().unwrap_or_else(|_| harness_error("cannot find own executable"));
+    let dir = format!("{}/work/iso-{}-{}", std::env::var("VERIF_DIR").unwrap_or_else(|_| "/verif".into()), std::process::id(), BATCH_NO.fetch_add(1, Ordering::SeqCst));
+    let _ = std::fs::create_dir_all(&dir);
+    let f = format!("{dir}/case.json");
+    let o = format!("{dir}/out.json");
+    if std::fs::write(&f, serde_json::to_string(case).unwrap_or_default()).is_err() {
+        harness_error("cannot write isolated case file");
+    }
+    let mut ch = std::process::Command::new(&exe)
+        .arg("exec-case")
+        .arg(world.name())
+        .arg(&f)
+        .arg(&o)
+        .stdout(std::process::Stdio::null())
+        .stderr(std::process::Stdio::null())
+        .spawn()
+        .unwrap_or_else(|e| harness_error(&format!("cannot spawn isolated case: {e}")));
+    let t0 = Instant::now();
+    let res = loop {
+        match ch.try_wait() {
+            Ok(Some(st)) => {
+                if st.success() {
+                    let v: Option<Violation> = std::fs::read_to_string(&o).ok().and_then(|s| serde_json::from_str(&s).ok()).unwrap_or(None);
+                    break Isolated::Finished(v);
+                }
+                break Isolated::Died(format!("{st}"));
+            }
+            Ok(None) => {
+                if t0.elapsed().as_secs() >= limit_s {
+                    let _ = ch.kill();
+                    let _ = ch.wait();
+                    break Isolated::TimedOut;
+                }
+                std::thread::sleep(std::time::Duration::from_millis(5));
+            }
+            Err(e) => harness_error(&format!("wait failed: {e}")),
+        }
+    };
+    let _ = std::fs::remove_dir_all(&dir);
+    res
+}
+
+struct Slot {
+    k: usize,
+    out: String,
+    child: Option<std::process::Child>,
+    last_idx: Option<u64>,
+    since: Instant,
+    restarts: u32,
+}
+
 /// Run `runs` cases on `workers` worker processes. The verdict and all merged statistics are
 /// independent of the worker count: cases are a function of (seed, world, run index), every
 /// run is isolated on its own thread, and the reported violation is the one with the lowest
@@ -309,6 +403,8 @@ static BATCH_NO: AtomicU64 = AtomicU64::new(0);
 pub fn run_batch<W: World>(world: &Arc<W>, verif_seed: u64, tier: Tier, runs: u64, workers: usize, known: &Arc<Vec<KnownFinding>>) -> BatchResult<W::Case> {
     let t0 = Instant::now();
     let workers = workers.max(1).min(runs.max(1) as usize);
+    let isolated = world.crash_isolated();
+    let stall_s: u64 = std::env::var("VERIF_STALL_S").ok().and_then(|s| s.parse().ok()).unwrap_or(30);
     let exe = std::env::current_exe().unwrap_or_else(|_| harness_error("cannot find own executable"));
     let dir = format!("{}/work/batch-{}-{}", std::env::var("VERIF_DIR").unwrap_or_else(|_| "/verif".into()), std::process::id(), BATCH_NO.fetch_add(1, Ordering::SeqCst));
     let _ = std::fs::remove_dir_all(&dir);
@@ -316,10 +412,8 @@ pub fn run_batch<W: World>(world: &Arc<W>, verif_seed: u64, tier: Tier, runs: u6
         harness_error(&format!("cannot create {dir}"));
     }
     let stop_file = format!("{dir}/stop");
-    let mut children = vec![];
-    for k in 0..workers {
-        let out = format!("{dir}/w{k}.json");
-        let ch = std::process::Command::new(&exe)
+    let spawn = |k: usize, out: &str, start: u64| -> std::process::Child {
+        std::process::Command::new(&exe)
             .arg("worker")
             .arg(world.name())
             .arg(tier.name())
@@ -327,53 +421,122 @@ pub fn run_batch<W: World>(world: &Arc<W>, verif_seed: u64, tier: Tier, runs: u6
             .arg(runs.to_string())
             .arg(k.to_string())
             .arg(workers.to_string())
-            .arg(&out)
+            .arg(out)
             .arg(&stop_file)
+            .env("VERIF_WORKER_START", start.to_string())
             .stdout(std::process::Stdio::inherit())
-            .stderr(std::process::Stdio::inherit())
+            .stderr(if isolated { std::process::Stdio::null() } else { std::process::Stdio::inherit() })
             .spawn()
-            .unwrap_or_else(|e| harness_error(&format!("cannot spawn worker: {e}")));
-        children.push((k, out, Some(ch)));
+            .unwrap_or_else(|e| harness_error(&format!("cannot spawn worker: {e}")))
+    };
+    let mut slots: Vec<Slot> = vec![];
+    for k in 0..workers {
+        let out = format!("{dir}/w{k}.json");
+        let ch = spawn(k, &out, 0);
+        slots.push(Slot { k, out, child: Some(ch), last_idx: None, since: Instant::now(), restarts: 0 });
     }
-    let progress = AtomicBool::new(std::env::var("VERIF_PROGRESS").is_ok());
+    let progress = std::env::var("VERIF_PROGRESS").is_ok();
     let mut reports: Vec<WorkerReport> = vec![];
+    let mut extra_fails: Vec<(u64, W::Case, Violation)> = vec![];
     let mut stop_at = u64::MAX;
-    let mut remaining = children.len();
-    while remaining > 0 {
+    let mut watchdog_reexams = 0u64;
+    let mut last_watch = Instant::now();
+    let regen = |i: u64| world.generate_indexed(i, case_seed(verif_seed, world.name(), i), tier);
+    loop {
+        let mut remaining = 0;
         let mut progressed = false;
-        for (k, out, ch) in children.iter_mut() {
-            let done = match ch {
-                Some(c) => match c.try_wait() {
-                    Ok(Some(st)) => {
-                        if !st.success() {
-                            // a worker died: in the history worlds that is a harness error (C20 runs its cases in its own crash-isolated children)
-                            let _ = std::fs::remove_dir_all(&dir);
-                            harness_error(&format!("worker {k} of world {} exited with {st:?}", world.name()));
+        let watch_now = isolated && last_watch.elapsed().as_millis() >= 500;
+        if watch_now {
+            last_watch = Instant::now();
+        }
+        for s in slots.iter_mut() {
+            let Some(c) = s.child.as_mut() else { continue };
+            remaining += 1;
+            match c.try_wait() {
+                Ok(Some(st)) => {
+                    s.child = None;
+                    remaining -= 1;
+                    progressed = true;
+                    if st.success() {
+                        let txt = std::fs::read_to_string(&s.out).unwrap_or_else(|e| harness_error(&format!("worker {} left no report: {e}", s.k)));
+                        let rep: WorkerReport = serde_json::from_str(&txt).unwrap_or_else(|e| harness_error(&format!("worker {} report unreadable: {e}", s.k)));
+                        if let Some((i, _, _)) = &rep.failure {
+                            if *i < stop_at {
+                                stop_at = *i;
+                                let _ = std::fs::write(&stop_file, format!("{stop_at}"));
+                            }
                         }
-                        true
-                    }
-                    Ok(None) => false,
-                    Err(e) => harness_error(&format!("wait failed: {e}")),
-                },
-                None => false,
-            };
-            if done {
-                *ch = None;
-                remaining -= 1;
-                progressed = true;
-                let s = std::fs::read_to_string(&*out).unwrap_or_else(|e| harness_error(&format!("worker {k} left no report: {e}")));
-                let rep: WorkerReport = serde_json::from_str(&s).unwrap_or_else(|e| harness_error(&format!("worker {k} report unreadable: {e}")));
-                if let Some((i, _, _)) = &rep.failure {
-                    if *i < stop_at {
-                        stop_at = *i;
-                        let _ = std::fs::write(&stop_file, format!("{stop_at}"));
+                        if progress {
+                            eprintln!("  .. worker {} finished", s.k);
+                        }
+                        reports.push(rep);
+                    } else if isolated {
+                        // the worker died while executing the case it last reported
+                        let idx = std::fs::read_to_string(format!("{}.progress", s.out)).ok().and_then(|t| t.trim().parse::<u64>().ok());
+                        if let Ok(txt) = std::fs::read_to_string(format!("{}.partial", s.out)) {
+                            if let Ok(rep) = serde_json::from_str::<WorkerReport>(&txt) {
+                                reports.push(rep);
+                            }
+                        }
+                        match idx {
+                            Some(i) => {
+                                let v = Violation::new("process_death", format!("worker process died: {st}"), 0, "a result or an error value", format!("the process executing the case ended with {st}"));
+                                extra_fails.push((i, regen(i), v));
+                                if i < stop_at {
+                                    stop_at = i;
+                                    let _ = std::fs::write(&stop_file, format!("{stop_at}"));
+                                }
+                            }
+                            None => harness_error(&format!("worker {} of world {} died ({st}) before reporting a case", s.k, world.name())),
+                        }
+                    } else {
+                        let _ = std::fs::remove_dir_all(&dir);
+                        harness_error(&format!("worker {} of world {} exited with {st:?}", s.k, world.name()));
                     }
                 }
-                if progress.load(Ordering::Relaxed) {
-                    eprintln!("  .. worker {k} finished");
+                Ok(None) => {
+                    if watch_now {
+                        let idx = std::fs::read_to_string(format!("{}.progress", s.out)).ok().and_then(|t| t.trim().parse::<u64>().ok());
+                        if idx != s.last_idx {
+                            s.last_idx = idx;
+                            s.since = Instant::now();
+                        } else if let (Some(i), true) = (idx, s.since.elapsed().as_secs() >= stall_s) {
+                            // seems stuck: stop the worker, examine the case alone, resume behind it
+                            let _ = c.kill();
+                            let _ = c.wait();
+                            s.child = None;
+                            watchdog_reexams += 1;
+                            if let Ok(txt) = std::fs::read_to_string(format!("{}.partial", s.out)) {
+                                if let Ok(rep) = serde_json::from_str::<WorkerReport>(&txt) {
+                                    reports.push(rep);
+                                }
+                            }
+                            let case = regen(i);
+                            match run_case_isolated(world, &case, 4 * stall_s) {
+                                Isolated::Finished(None) => {}
+                                Isolated::Finished(Some(v)) => extra_fails.push((i, case, v)),
+                                Isolated::Died(st) => extra_fails.push((i, case, Violation::new("process_death", format!("worker process died: {st}"), 0, "a result or an error value", format!("the process executing the case ended with {st}")))),
+                                Isolated::TimedOut => extra_fails.push((i, case, Violation::new("hang", format!("no result after {} s alone in a fresh process", 4 * stall_s), 0, "termination", "still running"))),
+                            }
+                            if let Some((fi, _, _)) = extra_fails.last() {
+                                if *fi == i && i < stop_at {
+                                    stop_at = i;
+                                    let _ = std::fs::write(&stop_file, format!("{stop_at}"));
+                                }
+                            }
+                            s.restarts += 1;
+                            s.out = format!("{dir}/w{}r{}.json", s.k, s.restarts);
+                            s.child = Some(spawn(s.k, &s.out, i + 1));
+                            s.last_idx = None;
+                            s.since = Instant::now();
+                        }
+                    }
                 }
-                reports.push(rep);
+                Err(e) => harness_error(&format!("wait failed: {e}")),
             }
+        }
+        if remaining == 0 {
+            break;
         }
         if !progressed {
             std::thread::sleep(std::time::Duration::from_millis(20));
@@ -382,7 +545,7 @@ pub fn run_batch<W: World>(world: &Arc<W>, verif_seed: u64, tier: Tier, runs: u6
     let _ = std::fs::remove_dir_all(&dir);
     let mut obs = Obs::new(world.property(), known.clone(), false);
     let mut d: Vec<(u64, u64)> = vec![];
-    let mut fails: Vec<(u64, Value, Violation)> = vec![];
+    let mut fails: Vec<(u64, W::Case, Violation)> = extra_fails;
     let mut samples: Vec<(u64, Value)> = vec![];
     for rep in reports {
         for (k, v) in rep.counters {
@@ -393,15 +556,19 @@ pub fn run_batch<W: World>(world: &Arc<W>, verif_seed: u64, tier: Tier, runs: u6
         }
         obs.known_hits.extend(rep.known_hits);
         d.extend(rep.digests);
-        fails.extend(rep.failure);
+        if let Some((i, c, v)) = rep.failure {
+            let case: W::Case = serde_json::from_value(c).unwrap_or_else(|e| harness_error(&format!("worker returned an unreadable case: {e}")));
+            fails.push((i, case, v));
+        }
         samples.extend(rep.samples);
     }
+    if isolated {
+        obs.add("watchdog_reexaminations", watchdog_reexams);
+    }
     d.sort();
+    d.dedup();
     fails.sort_by_key(|x| x.0);
-    let first = fails.into_iter().next().map(|(i, c, v)| {
-        let case: W::Case = serde_json::from_value(c).unwrap_or_else(|e| harness_error(&format!("worker returned an unreadable case: {e}")));
-        (i, case, v)
-    });
+    let first = fails.into_iter().next();
     let limit = first.as_ref().map(|x| x.0).unwrap_or(u64::MAX);
     let mut digest = 0u64;
     let mut runs_done = 0;
@@ -412,6 +579,7 @@ pub fn run_batch<W: World>(world: &Arc<W>, verif_seed: u64, tier: Tier, runs: u6
         }
     }
     samples.sort_by_key(|x| x.0);
+    samples.dedup_by_key(|x| x.0);
     BatchResult { obs, runs_done, digest, first_violation: first, samples: samples.into_iter().map(|x| x.1).collect(), wall_s: t0.elapsed().as_secs_f64() }
 }
 
@@ -429,8 +597,20 @@ pub fn minimise<W: World>(world: &Arc<W>, case: &W::Case, v: &Violation, known: 
                 break 'outer;
             }
             tried += 1;
-            let out = run_case(world, &c, known, false);
-            if let Some(v2) = out.violation {
+            let needs_isolation = world.crash_isolated() && (cur_v.kind == "process_death" || cur_v.kind == "hang");
+            let violation = if needs_isolation {
+                if tried > 250 {
+                    break 'outer;
+                }
+                match run_case_isolated(world, &c, if cur_v.kind == "hang" { 60 } else { 20 }) {
+                    Isolated::Finished(v) => v,
+                    Isolated::Died(st) => Some(Violation::new("process_death", format!("worker process died: {st}"), 0, "a result or an error value", format!("the process executing the case ended with {st}"))),
+                    Isolated::TimedOut => Some(Violation::new("hang", "no result within the limit, alone in a fresh process", 0, "termination", "still running")),
+                }
+            } else {
+                run_case(world, &c, known, false).violation
+            };
+            if let Some(v2) = violation {
                 if v2.kind == cur_v.kind {
                     cur = c;
                     cur_v = v2;
@@ -482,6 +662,13 @@ pub fn replay<W: World>(world: &Arc<W>, rf: &ReplayFile, known: &Arc<Vec<KnownFi
         Ok(c) => c,
         Err(e) => harness_error(&format!("replay file does not hold a {} case: {e}", world.name())),
     };
+    if world.crash_isolated() && std::env::var("VERIF_IN_CHILD").is_err() {
+        return match run_case_isolated(world, &case, 150) {
+            Isolated::Finished(v) => v,
+            Isolated::Died(st) => Some(Violation::new("process_death", format!("worker process died: {st}"), 0, "a result or an error value", format!("the process executing the case ended with {st}"))),
+            Isolated::TimedOut => Some(Violation::new("hang", "no result within 150 s, alone in a fresh process", 0, "termination", "still running")),
+        };
+    }
     let out = run_case(world, &case, known, true);
     if std::env::var("VERIF_SHOW_LOG").is_ok() {
         for l in &out.obs.log {
